@@ -8,6 +8,8 @@ import NextestModel.Lemmas.ResultOrError
 import NextestModel.Model.Syntax
 import NextestModel.Lemmas.StringRoundTrip
 import NextestModel.Gen.Tables
+import NextestModel.Lemmas.ExprRoundTrip
+import NextestModel.Thm.C05
 namespace NextestModel.C20
 open NextestModel NextestModel.Syntax
 
@@ -237,6 +239,66 @@ theorem matcher_roundtrip (cx : Ctx) (dm : DefaultMatcher) (m : Matcher) (tail :
       · rename_i heq; simp at heq; exact absurd heq.1 h6
       · rename_i heq; simp at heq; exact absurd heq.1 h7
       · simp only [parseGlobM, ht]; simp [St.valid, hv]
+
+/-! ## The whole expression -/
+
+/-- every set definition in `e` carries a matcher the parser can have produced under `cx`: a non-empty value, the implicit
+    form only for the predicate's own default matcher, a regex not ending in a lone backslash, regex / glob texts the
+    `regex` / `globset` crates accept (validity is an input of the model) -/
+def SetsOk (cx : Ctx) : PExpr → Prop
+  | .set s => ExprRT.SetOk (MatcherOk cx) s
+  | .not _ e => SetsOk cx e
+  | .parens e => SetsOk cx e
+  | .union _ a b => SetsOk cx a ∧ SetsOk cx b
+  | .inter _ a b => SetsOk cx a ∧ SetsOk cx b
+  | .diff a b => SetsOk cx a ∧ SetsOk cx b
+
+mutual
+private theorem wf_basic (cx : Ctx) : ∀ (e : PExpr), C05.IsBasic e → SetsOk cx e → ExprRT.wf (MatcherOk cx) 0 e
+  | .set _, .set _, hs => hs
+  | .not _ e, .not _ h, hs => wf_basic cx e h hs
+  | .parens e, .parens h, hs => wf_or cx e h hs
+private theorem wf_and (cx : Ctx) : ∀ (e : PExpr), C05.IsAnd e → SetsOk cx e → ExprRT.wf (MatcherOk cx) 1 e
+  | e, .basic h, hs => ExprRT.wf_mono _ 0 1 (by omega) _ (wf_basic cx e h hs)
+  | .inter _ a b, .inter _ ha hb, hs => ⟨Nat.le_refl 1, wf_and cx a ha hs.1, wf_basic cx b hb hs.2⟩
+  | .diff a b, .diff ha hb, hs => ⟨Nat.le_refl 1, wf_and cx a ha hs.1, wf_basic cx b hb hs.2⟩
+private theorem wf_or (cx : Ctx) : ∀ (e : PExpr), C05.IsOr e → SetsOk cx e → ExprRT.wf (MatcherOk cx) 2 e
+  | e, .and h, hs => ExprRT.wf_mono _ 1 2 (by omega) _ (wf_and cx e h hs)
+  | .union _ a b, .union _ ha hb, hs => ⟨Nat.le_refl 2, wf_or cx a ha hs.1, wf_and cx b hb hs.2⟩
+end
+
+/-- **Printing a parsed expression and parsing the text again yields the same expression** (modulo source spans), with no
+    error and nothing left over — for EVERY expression of the shape the parser produces (`C05.IsOr`: proved of every parser
+    output by `C05.parse_shape`), of any size and nesting depth, with any operator spellings, any predicates and any matcher
+    values (all scalar values, `string_roundtrip`).  The printer inserts no parentheses of its own, so the shape hypothesis is
+    exactly what makes the statement true: `a or (b or c)` without its parentheses node would print as `a or b or c`.
+    The fuel the model parser gives itself (`fuelFor`) is shown to suffice for every printed expression. -/
+theorem print_parse_roundtrip (e : PExpr) (rv gv : List (List Char × Bool))
+    (hshape : C05.IsOr e) (hsets : SetsOk (mkCtx (printExpr e) rv gv) e) :
+    ∃ e', parseFilterset (printExpr e) rv gv = .ok e' ∧ dropSpans e' = dropSpans e := by
+  have hm : ExprRT.MatcherRT (mkCtx (printExpr e) rv gv) (MatcherOk (mkCtx (printExpr e) rv gv)) :=
+    fun dm m tail errs needs h => matcher_roundtrip _ dm m tail errs needs h
+  obtain ⟨e', h1, h2⟩ := ExprRT.parseTop_printed (MatcherOk (mkCtx (printExpr e) rv gv)) e rv gv hm (wf_or _ e hshape hsets)
+  exact ⟨e', by simp only [parseFilterset, h1], h2⟩
+
+/-- what `Filterset::parse` returns for the printed form of `e`, spans forgotten -/
+def reparse (e : PExpr) : Option PExpr :=
+  match parseFilterset (printExpr e) [] [] with
+  | .ok x => some (dropSpans x)
+  | .error _ => none
+
+-- non-vacuity: `not test(a b) and (kind(=lib) | all())` printed and re-read (an implicit `contains` value with a blank, an
+-- explicit `equal`, a nullary set, both spellings of or/and, parentheses)
+example : reparse (.inter .literalAnd (.not .literalNot (.set (.unary .test (.contains "a b".toList true) ⟨0, 0⟩)))
+      (.parens (.union .pipe (.set (.unary .kind (.equal "lib".toList false) ⟨0, 0⟩)) (.set .all)))) =
+    some (.inter .literalAnd (.not .literalNot (.set (.unary .test (.contains "a b".toList true) ⟨0, 0⟩)))
+      (.parens (.union .pipe (.set (.unary .kind (.equal "lib".toList false) ⟨0, 0⟩)) (.set .all)))) := by decide +kernel
+
+/-- without the shape hypothesis the statement is false: a right-nested `or` prints without parentheses and is read back
+    left-nested -/
+theorem roundtrip_needs_shape :
+    reparse (.union .pipe (.set .all) (.union .pipe (.set .none) (.set .all))) =
+      some (.union .pipe (.union .pipe (.set .all) (.set .none)) (.set .all)) := by decide +kernel
 
 /-! ## Tie to the source: the escape table of `parse_escaped_char` -/
 
